@@ -44,13 +44,12 @@ Definition next_or (o : oracle) : (nat * bool) * oracle :=
 Definition is_nil {A} (l : list A) : bool := match l with [] => true | _ => false end.
 
 (* r.Read(b) with len b = k > 0 on a message with [rest] left: at the end (0, io.EOF); otherwise
-   between 1 and min k |rest| bytes (hint 0 = as many as fit), and io.EOF may or may not come
-   together with the last bytes. *)
+   between 1 and min k |rest| bytes (hint 0 = as many as fit: [firstn] stops at the end of the
+   message by itself), and io.EOF may or may not come together with the last bytes. *)
 Definition mr_read (rest : bytes) (k : nat) (o : nat * bool) : bytes * bytes * bool :=
   match rest with
   | [] => ([], [], true)
-  | _ => let m := Nat.min k (length rest) in
-         let j := match fst o with O => m | S h => Nat.min (S h) m end in
+  | _ => let j := match fst o with O => k | S h => Nat.min (S h) k end in
          let rest' := skipn j rest in
          (firstn j rest, rest', snd o && is_nil rest')
   end.
@@ -161,9 +160,18 @@ Definition parse_msg (v : val) : option msg :=
 
 Definition is_control (m : msg) : bool := 8 <=? fst m.
 
+(* Number of 2048-byte reads that certainly exhaust a message: |payload| / 2048 + 2.  The length is
+   counted on N with an accumulator, so that megabyte payloads do not need a deep stack in the
+   extracted code.  Should the bound ever be too small the run ends EOpen and the case is reported
+   as a model mismatch, never accepted. *)
+Fixpoint len_acc (l : bytes) (acc : N) : N :=
+  match l with [] => acc | _ :: r => len_acc r (acc + 1) end.
+
+Definition reads_for (m : msg) : nat := N.to_nat (len_acc (snd m) 0 / 2048 + 2).
+
 Definition model_delivery (ms : list msg) : bytes * ending :=
-  let total := length (stream ms) in
-  let '(d, e, _) := read_all (repeat 2048%nat (S (S total))) (mkWs None ms) [] in (d, e).
+  let sizes := flat_map (fun m => repeat 2048%nat (reads_for m)) ms ++ [2048%nat] in
+  let '(d, e, _) := read_all sizes (mkWs None ms) [] in (d, e).
 
 (* does anything follow the first non-binary message? *)
 Fixpoint sent_after_nonbinary (ms : list msg) : bool :=
